@@ -1,3 +1,4 @@
+import AmrK.TasteDataProofs
 import AmrK.HeaderCodec
 import AmrK.CellHCodec
 import AmrK.ColumnAffine
@@ -120,5 +121,21 @@ theorem slice_header_read_back (fl : Py.Bytes → Py.Bytes) (m : Header.Meta) (c
     Header.parse (Header.render (Header.slice2D fl m coord names cx cy sel)) none =
       .ok ((Header.slice2D fl m coord names cx cy sel).meta (Header.slice2D fl m coord names cx cy sel).levels.length) :=
   Header.slice2D_read_back fl m coord names cx cy sel hg
+
+/-- **true extrema** (the rows the driver recomputes from the bytes of every written FAB with `TasteData.fabExtrema` and
+    compares with the written level header): the `np.min` / `np.max` of a NaN-free block of values is an element of the
+    block below / above every element; a block holding a NaN has NaN for both -/
+theorem extrema_are_true (l : List Extrema.V) (hne : l ≠ []) (hl : TasteData.NoNan l) :
+    (∃ m, Extrema.reduce Extrema.vmin l = some m ∧ m ∈ l ∧ ∀ x ∈ l, Extrema.le m x = true) ∧
+    (∃ m, Extrema.reduce Extrema.vmax l = some m ∧ m ∈ l ∧ ∀ x ∈ l, Extrema.le x m = true) :=
+  ⟨TasteData.reduce_vmin_spec l hne hl, TasteData.reduce_vmax_spec l hne hl⟩
+
+theorem extrema_nan (l : List Extrema.V) (h : Extrema.V.nan ∈ l) :
+    Extrema.reduce Extrema.vmin l = some .nan ∧ Extrema.reduce Extrema.vmax l = some .nan :=
+  ⟨Extrema.reduce_nan _ (by intro x; cases x <;> rfl) (by intro x; cases x <;> rfl) l h,
+   Extrema.reduce_nan _ (by intro x; cases x <;> rfl) (by intro x; cases x <;> rfl) l h⟩
+
+example : TasteData.fabExtrema ([0,0,0,0,0,0,0xF0,0x3F] ++ [0,0,0,0,0,0,0x08,0xC0]) 2 0 = some (.fin (-3), .fin 1) := by
+  decide +kernel
 
 end C16
